@@ -1,0 +1,31 @@
+"""Verification hook (add-only, inactive unless FLOX_VERIF=1).
+
+Records the plan chosen by groupby_reduce (strategy, engine, reindex mode) for the
+trace specifications under /verif.  With the guard off `emit` is a no-op behind a
+single module-level boolean.
+"""
+
+import json
+import os
+import threading
+
+ENABLED = os.environ.get("FLOX_VERIF") == "1"
+_lock = threading.Lock()
+_seq = 0
+EVENTS: list = []
+
+
+def emit(ev, **kw):
+    if not ENABLED:
+        return
+    global _seq
+    with _lock:
+        _seq += 1
+        rec = {"seq": _seq, "ev": ev, **{k: (v if isinstance(v, (int, float, str, bool, type(None))) else repr(v)) for k, v in kw.items()}}
+        EVENTS.append(rec)
+        if len(EVENTS) > 10000:
+            del EVENTS[:5000]
+        path = os.environ.get("FLOX_VERIF_TRACE")
+        if path:
+            with open(path, "a") as f:
+                f.write(json.dumps(rec) + "\n")
